@@ -162,6 +162,8 @@ class DefaultCounter:
             x = bytesize//2
             assert len(iv)==bytesize
             self.setup(iv[0:x],iv[x:])
+        else:
+            self.setup()
 
     def setup(self,nonce=None,count=None):
         l = self.bytesize
